@@ -1,7 +1,9 @@
 (* Model of pkg/nack/responder_interceptor.go through its public API:
    NewInterceptor (options ResponderSize, DisableCopy), BindLocalStream and the
    writer it returns, BindRTCPReader (one TransportLayerNack per Read),
-   UnbindLocalStream, Close.  Sequential semantics: the resend goroutine of a
+   UnbindLocalStream, Close (after the fix "Close waits for retransmissions in
+   progress and stops serving streams": flag [closed], BindLocalStream after
+   Close passes the writer through, NACKs after Close start nothing).  Sequential semantics: the resend goroutine of a
    NACK has finished before the next operation (the harness waits for it);
    the concurrent reading is Model/ResendLts.v. *)
 From IV Require Import Base.Word Model.RtpBuffer Model.PacketFactory.
@@ -11,15 +13,17 @@ From IV Require Import Base.Word Model.RtpBuffer Model.PacketFactory.
 Record sinfo := mkSI { si_ssrc : Z; si_rtxssrc : Z; si_rtxpt : Z; si_nack : bool }.
 
 (* what one BindLocalStream call created: the closure's captured info, stream
-   (buffer + downstream writer).  hd_pass: the filter rejected the stream and
-   the downstream writer itself was returned. *)
+   (buffer + downstream writer).  hd_pass: the filter rejected the stream or
+   the interceptor was already closed, and the downstream writer itself was
+   returned (the stream is not registered). *)
 Record handle := mkHd { hd_info : sinfo; hd_wid : Z; hd_buf : rbuf; hd_pass : bool }.
 
 Record rstate := mkRS {
   rs_size : Z; rs_copy : bool;
   rs_handles : list handle;          (* by handle id = position *)
   rs_streams : list (Z * nat);       (* n.streams: SSRC -> handle id *)
-  rs_seqr : Z }.                     (* RTX sequencer of the packet factory *)
+  rs_seqr : Z;                       (* RTX sequencer of the packet factory *)
+  rs_closed : bool }.                (* n.closed: Close has been called *)
 
 Inductive op :=
 | OBind (i : sinfo) (wid : Z)
@@ -65,12 +69,12 @@ Definition empty_buf (size : Z) : rbuf := mkRB size [] 0 false.
 Definition rstep (s : rstate) (o : op) : rstate * out :=
   match o with
   | OBind i wid =>
-      if negb (si_nack i) then
+      if negb (si_nack i) || rs_closed s then
         (mkRS (rs_size s) (rs_copy s) (rs_handles s ++ [mkHd i wid (empty_buf (rs_size s)) true])
-              (rs_streams s) (rs_seqr s), (0, []))
+              (rs_streams s) (rs_seqr s) (rs_closed s), (0, []))
       else
         (mkRS (rs_size s) (rs_copy s) (rs_handles s ++ [mkHd i wid (empty_buf (rs_size s)) false])
-              (amap_set (si_ssrc i) (length (rs_handles s)) (rs_streams s)) (rs_seqr s), (0, []))
+              (amap_set (si_ssrc i) (length (rs_handles s)) (rs_streams s)) (rs_seqr s) (rs_closed s), (0, []))
   | OWrite hid h pay =>
       match nth_error (rs_handles s) hid with
       | None => (s, (0, []))
@@ -81,15 +85,17 @@ Definition rstep (s : rstate) (o : op) : rstate * out :=
               if rs_copy s then new_packet (rs_seqr s) h pay (si_rtxssrc (hd_info hd)) (si_rtxpt (hd_info hd))
               else (new_packet_noop h pay, rs_seqr s) in
             match res with
-            | NPErr c => (mkRS (rs_size s) (rs_copy s) (rs_handles s) (rs_streams s) sq, (c, []))
+            | NPErr c => (mkRS (rs_size s) (rs_copy s) (rs_handles s) (rs_streams s) sq (rs_closed s), (c, []))
             | NPOk p =>
                 (mkRS (rs_size s) (rs_copy s)
                       (upd_nth hid (hd_set_buf (rb_add (hd_buf hd) p)) (rs_handles s))
-                      (rs_streams s) sq,
+                      (rs_streams s) sq (rs_closed s),
                  (0, [(hd_wid hd, h, pay)]))
             end
       end
   | ONack ssrc pairs =>
+      (* startResend: no goroutine once closed (n.streams is empty then anyway) *)
+      if rs_closed s then (s, (0, [])) else
       match amap_find ssrc (rs_streams s) with
       | None => (s, (0, []))
       | Some hid =>
@@ -104,13 +110,13 @@ Definition rstep (s : rstate) (o : op) : rstate * out :=
       | Some hid =>
           (mkRS (rs_size s) (rs_copy s)
                 (upd_nth hid (fun hd => hd_set_buf (rb_clear (hd_buf hd)) hd) (rs_handles s))
-                (amap_remove ssrc (rs_streams s)) (rs_seqr s), (0, []))
+                (amap_remove ssrc (rs_streams s)) (rs_seqr s) (rs_closed s), (0, []))
       end
   | OClose =>
       (mkRS (rs_size s) (rs_copy s)
             (fold_left (fun hs kv => upd_nth (snd kv) (fun hd => hd_set_buf (rb_clear (hd_buf hd)) hd) hs)
                        (rs_streams s) (rs_handles s))
-            [] (rs_seqr s), (0, []))
+            [] (rs_seqr s) true, (0, []))
   end.
 
 Fixpoint rrun (s : rstate) (ops : list op) : list out :=
@@ -119,4 +125,4 @@ Fixpoint rrun (s : rstate) (ops : list op) : list out :=
   | o :: r => let '(s', ou) := rstep s o in ou :: rrun s' r
   end.
 
-Definition rinit (size : Z) (copy : bool) (rtxstart : Z) : rstate := mkRS size copy [] [] rtxstart.
+Definition rinit (size : Z) (copy : bool) (rtxstart : Z) : rstate := mkRS size copy [] [] rtxstart false.
